@@ -32,6 +32,15 @@ pub enum Op {
     CloseTunnel(u16, u8),
     CloseSession(u16),
     Scrape,
+    /// open a UDP multiplexer (CONNECT _udp2) on HTTP/2 session (index)
+    UdpMux(u16),
+    /// client datagram of this many payload bytes on flow (0..3) of multiplexer (index)
+    UdpSend(u16, u8, u16),
+    /// the destination of that flow sends n datagrams of this size; the client reads them as
+    /// they come (true) or only afterwards, without opening its window meanwhile (false:
+    /// datagrams beyond the window are dropped by the endpoint)
+    UdpReplies(u16, u8, u8, u16, bool),
+    CloseUdpMux(u16),
 }
 
 #[derive(Serialize, Deserialize, Debug, Clone)]
@@ -82,6 +91,7 @@ fn series_names() -> Vec<String> {
 struct Model {
     sessions: BTreeMap<&'static str, i64>,
     tcp: i64,
+    udp: i64,
     up: BTreeMap<&'static str, u64>,
     down: BTreeMap<&'static str, u64>,
 }
@@ -100,6 +110,33 @@ struct Tunnel {
     proto: &'static str,
     client: Option<ClientSide>,
     dest: Option<Dest>,
+}
+
+struct UdpMuxState {
+    session: usize,
+    send: Option<h2::SendStream<Bytes>>,
+    recv: Option<h2::RecvStream>,
+    /// flow -> the endpoint's outbound socket for it (as the destination sees it)
+    flows: BTreeMap<u8, std::net::SocketAddr>,
+    buf: Vec<u8>,
+}
+
+/// Take every complete 6.4 record out of `buf`; returns the payload bytes they carried
+fn take_records(buf: &mut Vec<u8>) -> u64 {
+    let mut bytes = 0u64;
+    loop {
+        if buf.len() < 4 {
+            return bytes;
+        }
+        let len = u32::from_be_bytes([buf[0], buf[1], buf[2], buf[3]]) as usize;
+        if buf.len() < 4 + len {
+            return bytes;
+        }
+        let rec: Vec<u8> = buf.drain(..4 + len).collect();
+        if let Some((_, _, payload)) = crate::reference::udpmux::decode_out(&rec) {
+            bytes += payload.len() as u64;
+        }
+    }
 }
 
 enum Session {
@@ -132,6 +169,10 @@ fn compare(model: &Model, s: &Scrape, swapped: Option<bool>) -> Result<Option<bo
     let g = gauge(s, "outbound_tcp_sockets", "");
     if g != model.tcp as f64 {
         return Err(Violation { sig: "metrics:outbound-tcp-sockets".into(), msg: format!("outbound_tcp_sockets = {}, live outbound connections = {}", g, model.tcp) });
+    }
+    let g = gauge(s, "outbound_udp_sockets", "");
+    if g != model.udp as f64 {
+        return Err(Violation { sig: "metrics:outbound-udp-sockets".into(), msg: format!("outbound_udp_sockets = {}, live UDP flows = {}", g, model.udp) });
     }
     // traffic: either consistent assignment of the two series to the two directions
     let mut assignment = swapped;
@@ -210,6 +251,22 @@ async fn run_history(c: &Case) -> Verdict {
     model.sessions.insert("http2", 0);
     let mut sessions: Vec<Session> = vec![];
     let mut tunnels: Vec<Tunnel> = vec![];
+    // UDP destinations: three loopback sockets that record (peer, payload)
+    let mut udp_servers: Vec<(std::sync::Arc<tokio::net::UdpSocket>, std::sync::Arc<std::sync::Mutex<Vec<(std::net::SocketAddr, Vec<u8>)>>>)> = vec![];
+    for _ in 0..3 {
+        let sock = std::sync::Arc::new(tokio::net::UdpSocket::bind("127.0.0.1:0").await.map_err(|e| herr("udp", e.to_string()))?);
+        let got = std::sync::Arc::new(std::sync::Mutex::new(vec![]));
+        let (s2, g2) = (sock.clone(), got.clone());
+        tokio::spawn(async move {
+            let mut buf = vec![0u8; 70_000];
+            while let Ok((n, from)) = s2.recv_from(&mut buf).await {
+                g2.lock().unwrap().push((from, buf[..n].to_vec()));
+            }
+        });
+        udp_servers.push((sock, got));
+    }
+    let mut muxes: Vec<UdpMuxState> = vec![];
+    let mut udp_seq = 0u32;
     let mut assignment: Option<bool> = None;
     let auth = format!("Basic {}", b64(AUTH));
     let _ = s0;
@@ -489,6 +546,12 @@ async fn run_history(c: &Case) -> Verdict {
                             t.dest = None;
                             model.tcp -= 1;
                         }
+                        for m in muxes.iter_mut().filter(|m| m.session == k && m.send.is_some()) {
+                            m.send = None;
+                            m.recv = None;
+                            model.udp -= m.flows.len() as i64;
+                            m.flows.clear();
+                        }
                         drop(send);
                         conn.abort();
                         *model.sessions.get_mut("http2").unwrap() -= 1;
@@ -497,6 +560,139 @@ async fn run_history(c: &Case) -> Verdict {
                 }
             }
             Op::Scrape => {}
+            Op::UdpMux(i) => {
+                let live: Vec<usize> = sessions.iter().enumerate().filter(|(_, s)| matches!(s, Session::H2 { .. })).map(|(k, _)| k).collect();
+                if live.is_empty() || muxes.iter().filter(|m| m.send.is_some()).count() >= 3 {
+                    continue;
+                }
+                let k = live[idx(*i, live.len())];
+                if let Session::H2 { send, .. } = &sessions[k] {
+                    let req = http::Request::builder().method("CONNECT").uri("_udp2").header("proxy-authorization", auth.as_str()).body(()).unwrap();
+                    let mut sr = send.clone().ready().await.map_err(|e| herr("h2", e.to_string()))?;
+                    let (fut, stream) = sr.send_request(req, false).map_err(|e| herr("h2", e.to_string()))?;
+                    let resp = tokio::time::timeout(Duration::from_secs(5), fut).await.map_err(|_| herr("h2", "no response".into()))?.map_err(|e| herr("h2", e.to_string()))?;
+                    ensure!(resp.status() == 200, "harness:connect", "step {}: CONNECT _udp2 answered {}", step, resp.status());
+                    muxes.push(UdpMuxState { session: k, send: Some(stream), recv: Some(resp.into_body()), flows: Default::default(), buf: vec![] });
+                }
+            }
+            Op::UdpSend(i, flow, size) => {
+                let live: Vec<usize> = muxes.iter().enumerate().filter(|(_, m)| m.send.is_some()).map(|(k, _)| k).collect();
+                if live.is_empty() {
+                    continue;
+                }
+                let k = live[idx(*i, live.len())];
+                let f = *flow as usize % 3;
+                let size = 8 + *size as usize % 1400;
+                udp_seq += 1;
+                let mut payload = vec![0x55u8; size];
+                payload[..4].copy_from_slice(&udp_seq.to_be_bytes());
+                let src: std::net::SocketAddr = format!("10.7.{}.{}:4000", k, f).parse().unwrap();
+                let dst = udp_servers[f].0.local_addr().unwrap();
+                let rec = crate::reference::udpmux::encode_in(&crate::reference::udpmux::Datagram { source: src, destination: dst, app_name: "app".into(), payload: payload.clone() });
+                muxes[k].send.as_mut().unwrap().send_data(Bytes::from(rec), false).map_err(|e| herr("h2", e.to_string()))?;
+                let deadline = std::time::Instant::now() + Duration::from_secs(3);
+                let mut arrived = None;
+                while std::time::Instant::now() < deadline {
+                    if let Some((from, _)) = udp_servers[f].1.lock().unwrap().iter().find(|(_, p)| *p == payload) {
+                        arrived = Some(*from);
+                        break;
+                    }
+                    tokio::time::sleep(Duration::from_millis(2)).await;
+                }
+                let Some(from) = arrived else {
+                    return viol("relay:udp-datagram-not-delivered", format!("step {}: a client datagram of {} bytes never reached its destination", step, size));
+                };
+                *model.up.entry("http2").or_default() += size as u64;
+                if let Some(prev) = muxes[k].flows.insert(f as u8, from) {
+                    ensure!(prev == from, "relay:udp-flow-changed-socket", "step {}: a live flow moved from outbound socket {} to {}", step, prev, from);
+                } else {
+                    model.udp += 1;
+                }
+            }
+            Op::UdpReplies(i, flow, n, size, reading) => {
+                let live: Vec<usize> = muxes.iter().enumerate().filter(|(_, m)| m.send.is_some() && !m.flows.is_empty()).map(|(k, _)| k).collect();
+                if live.is_empty() {
+                    continue;
+                }
+                let k = live[idx(*i, live.len())];
+                let flows: Vec<(u8, std::net::SocketAddr)> = muxes[k].flows.iter().map(|(a, b)| (*a, *b)).collect();
+                let (f, peer) = flows[*flow as usize % flows.len()];
+                let f = f as usize;
+                let n = 1 + *n as usize % 120;
+                let size = 200 + *size as usize % 1000;
+                let m = &mut muxes[k];
+                let recv = m.recv.as_mut().unwrap();
+                let mut received = 0u64;
+                if *reading {
+                    for _ in 0..n {
+                        udp_servers[f].0.send_to(&vec![0x72u8; size], peer).await.map_err(|e| herr("udp", e.to_string()))?;
+                        // read as it comes
+                        let deadline = tokio::time::Instant::now() + Duration::from_millis(300);
+                        loop {
+                            let before = received;
+                            received += take_records(&mut m.buf);
+                            if received > before {
+                                break;
+                            }
+                            match tokio::time::timeout_at(deadline, recv.data()).await {
+                                Ok(Some(Ok(b))) => {
+                                    let _ = recv.flow_control().release_capacity(b.len());
+                                    m.buf.extend_from_slice(&b);
+                                }
+                                _ => break,
+                            }
+                        }
+                    }
+                } else {
+                    for _ in 0..n {
+                        udp_servers[f].0.send_to(&vec![0x72u8; size], peer).await.map_err(|e| herr("udp", e.to_string()))?;
+                        if n > 20 {
+                            tokio::task::yield_now().await;
+                        }
+                    }
+                    tokio::time::sleep(Duration::from_millis(120)).await;
+                }
+                // drain whatever the endpoint managed to send
+                loop {
+                    received += take_records(&mut m.buf);
+                    match tokio::time::timeout(Duration::from_millis(150), recv.data()).await {
+                        Ok(Some(Ok(b))) => {
+                            let _ = recv.flow_control().release_capacity(b.len());
+                            m.buf.extend_from_slice(&b);
+                        }
+                        _ => break,
+                    }
+                }
+                received += take_records(&mut m.buf);
+                if *reading {
+                    ensure!(
+                        received == (n * size) as u64,
+                        "relay:udp-replies-lost",
+                        "step {}: {} reply datagrams of {} bytes sent to a reading client, {} payload bytes arrived",
+                        step,
+                        n,
+                        size,
+                        received
+                    );
+                }
+                *model.down.entry("http2").or_default() += received;
+            }
+            Op::CloseUdpMux(i) => {
+                let live: Vec<usize> = muxes.iter().enumerate().filter(|(_, m)| m.send.is_some()).map(|(k, _)| k).collect();
+                if live.is_empty() {
+                    continue;
+                }
+                let k = live[idx(*i, live.len())];
+                let m = &mut muxes[k];
+                if let Some(mut s) = m.send.take() {
+                    let _ = s.send_data(Bytes::new(), true);
+                }
+                if let Some(mut r) = m.recv.take() {
+                    let _ = tokio::time::timeout(Duration::from_millis(500), r.data()).await;
+                }
+                model.udp -= m.flows.len() as i64;
+                m.flows.clear();
+            }
         }
         assignment = eventually(&world, &model, assignment).await.map_err(|mut v| {
             v.msg = format!("after step {} ({:?}): {}", step, op, v.msg);
@@ -513,6 +709,12 @@ async fn run_history(c: &Case) -> Verdict {
         }
         t.dest = None;
     }
+    for m in muxes.iter_mut() {
+        m.send = None;
+        m.recv = None;
+        model.udp -= m.flows.len() as i64;
+        m.flows.clear();
+    }
     for s in sessions.iter_mut() {
         match std::mem::replace(s, Session::Closed) {
             Session::H1Idle(io) => {
@@ -527,7 +729,7 @@ async fn run_history(c: &Case) -> Verdict {
             _ => {}
         }
     }
-    ensure!(model.tcp == 0 && model.sessions.values().all(|v| *v == 0), "harness:model", "model did not return to zero: {:?}", model);
+    ensure!(model.tcp == 0 && model.udp == 0 && model.sessions.values().all(|v| *v == 0), "harness:model", "model did not return to zero: {:?}", model);
     eventually(&world, &model, assignment).await.map_err(|mut v| {
         v.sig = format!("{}:not-back-to-zero", v.sig);
         v.msg = format!("after all clients are gone: {}", v.msg);
@@ -576,7 +778,7 @@ impl Suite for HistorySuite {
         "session-histories"
     }
     fn rule(&self) -> String {
-        "histories of 5-30 operations {open HTTP/1.1 session, open HTTP/2 session, open tunnel to a loopback canary, tunnel to a closed port (refused), transfer n bytes up and m bytes down (n != m in general), download 100-400 KB while the client withholds window updates (partial acceptance at the endpoint's client-side sink), close tunnel gracefully / by reset / destination first, close session} against a real Core (in-memory client transports, real direct forwarder and real loopback TCP destinations); after every operation the exported text (Metrics::collect, the body of GET /metrics) must reach the model within 4 s: client_sessions per protocol = live sessions, outbound_tcp_sockets = live outbound connections, the two traffic series = bytes relayed in the two directions per protocol (either consistent assignment of series to directions), all back to zero at the end, every series named in METRICS.md present with its protocol_type label; non-trivial = history with a refused connect and an abortive close".into()
+        "histories of 5-30 operations {open HTTP/1.1 session, open HTTP/2 session, open tunnel to a loopback canary, tunnel to a closed port (refused), transfer n bytes up and m bytes down (n != m in general), download 100-400 KB while the client withholds window updates (partial acceptance at the endpoint's client-side sink), close tunnel gracefully / by reset / destination first, close session, open a UDP multiplexer on an HTTP/2 session, client datagram of 8-1400 bytes on one of three flows to loopback UDP sockets, 1-120 reply datagrams of 200-1200 bytes to a client that reads them as they come or only afterwards with its window closed (the endpoint then drops what does not fit), close the multiplexer} against a real Core (in-memory client transports, real direct forwarder and real loopback TCP destinations); after every operation the exported text (Metrics::collect, the body of GET /metrics) must reach the model within 4 s: client_sessions per protocol = live sessions, outbound_tcp_sockets = live outbound connections, outbound_udp_sockets = live UDP flows, the two traffic series = payload bytes relayed in the two directions per protocol - for UDP the datagrams that reached the destination resp. the client, not the dropped ones - (either consistent assignment of series to directions), all back to zero at the end, every series named in METRICS.md present with its protocol_type label; non-trivial = history with a refused connect and an abortive close".into()
     }
     fn strategy(&self, _: Tier) -> BoxedStrategy<Case> {
         let op = prop_oneof![
@@ -588,6 +790,10 @@ impl Suite for HistorySuite {
             2 => (any::<u16>(), any::<u16>()).prop_map(|(a, b)| Op::BigDownload(a, b)),
             3 => (any::<u16>(), 0u8..3).prop_map(|(a, b)| Op::CloseTunnel(a, b)),
             1 => any::<u16>().prop_map(Op::CloseSession),
+            2 => any::<u16>().prop_map(Op::UdpMux),
+            4 => (any::<u16>(), 0u8..3, any::<u16>()).prop_map(|(a, b, c)| Op::UdpSend(a, b, c)),
+            3 => (any::<u16>(), 0u8..3, any::<u8>(), any::<u16>(), any::<bool>()).prop_map(|(a, b, c, d, e)| Op::UdpReplies(a, b, c, d, e)),
+            1 => any::<u16>().prop_map(Op::CloseUdpMux),
         ];
         prop::collection::vec(op, 5..=30).prop_map(|ops| Case { ops }).boxed()
     }
@@ -607,6 +813,23 @@ impl Suite for HistorySuite {
         if refused && abort {
             v.push("nontrivial");
         }
+        // a multiplexer with a flow that gets more replies than the client's window holds
+        let mut have_mux = false;
+        let mut have_flow = false;
+        for o in &c.ops {
+            match o {
+                Op::OpenH2 => {}
+                Op::UdpMux(_) => have_mux = true,
+                Op::UdpSend(..) if have_mux => have_flow = true,
+                Op::UdpReplies(_, _, n, size, false) if have_flow && (1 + *n as usize % 120) * (200 + *size as usize % 1000) > 70_000 => {
+                    v.push("udp-replies-beyond-the-client-window");
+                }
+                Op::UdpReplies(..) if have_flow => v.push("udp-replies"),
+                _ => {}
+            }
+        }
+        v.sort();
+        v.dedup();
         v
     }
     fn check(&self, c: &Case) -> Verdict {
